@@ -269,7 +269,14 @@ def sdssflux2ab(flux, magnitude=False, ivar=False):
     #
     correction = np.array([-0.042, 0.036, 0.015, 0.013, -0.002])
     rows, cols = flux.shape
-    abflux = flux.copy()
+    #
+    # The corrections are not integers: integer input is converted to
+    # double precision, floating-point input keeps its type.
+    #
+    if np.issubdtype(flux.dtype, np.floating):
+        abflux = flux.copy()
+    else:
+        abflux = flux.astype(np.float64)
     if magnitude:
         for i in range(rows):
             abflux[i, :] += correction
